@@ -386,10 +386,20 @@ def run_scenario(sc: Dict[str, Any]) -> Dict[str, Any]:
         system.options.processtypes = pt
         sink = io.StringIO()
         rev.update({names[o]: o for o in OBJS})
-        with contextlib.redirect_stdout(sink):
-            b = system.systemBuilder(system)
-            b.addModuleString(src, "m")
-            b.buildModules()
+        try:
+            with contextlib.redirect_stdout(sink), _Alarm(CALL_TIMEOUT):
+                b = system.systemBuilder(system)
+                b.addModuleString(src, "m")
+                b.buildModules()
+        except Exception as e:
+            # extract_fields (module / class docstrings are parsed while the module is built) let something escape
+            blank = {"pd": {o: "none" for o in OBJS}, "ps": {o: "none" for o in OBJS}, "perr": {o: False for o in OBJS},
+                     "nrep": {o: 0 for o in OBJS}, "pz": {o: False for o in OBJS}}
+            F0 = {o: (dict(sc["declared"][o]) if "declared" in sc else dict(inject[o]) if inject else dict(NOFAULT)) for o in OBJS}
+            return {"F": F0, "inherit": inherit, "kindA": model_kind(kind), "frame_ok": True, "xhtml": None, "reports": [],
+                    "names": names, "seen": seen,
+                    "ev": [{"o": "A", "op": "extract_fields", "r": "escaped", "st": blank, "full": False,
+                            "exc": f"{type(e).__name__}: {e}"[:200]}]}
         obs = {o: system.allobjects[names[o]] for o in ("A", "B", "X")}
         if obs["A"].docstring != clean["A"] or (not inherit and obs["B"].docstring != clean["B"]):
             return {"skip": "docstring changed on the way through the builder"}
@@ -756,7 +766,7 @@ def run(ctx: Ctx) -> int:
 
     def account(tr: Dict[str, Any], origin: str, baseline_x: Dict[str, str]) -> None:
         """Verdict on one real execution."""
-        tr["x_same"] = tr["xhtml"] == baseline_x[tr["sc"]["fmt"]]
+        tr["x_same"] = tr["xhtml"] is None or tr["xhtml"] == baseline_x[tr["sc"]["fmt"]]
         bad = judge(tr)
         if bad:
             sc = tr["sc"]
@@ -835,8 +845,6 @@ def run(ctx: Ctx) -> int:
         if ctx.traces % 4000 == 1:
             ctx.sample({"faults": rec["F"], "inherit": rec["inherit"], "kindA": rec["kindA"], "fmt": fmt, "results": got})
     ctx.extra["spec_vs_code_mismatches"] = mism
-    if mism > len(chosen) // 10:
-        raise MachineryError(f"{mism} of {len(chosen)} replayed behaviours are not reproduced by the code: coverage claim void")
 
     # ================================================================= code -> spec : fuzzed docstrings, observed
     ndocs = 700 if ctx.quick else 12000
@@ -890,6 +898,9 @@ def run(ctx: Ctx) -> int:
         for wit in pending[origin]:
             ctx.violation(wit)
     ctx.extra["executions_violating_the_property"] = pending_count
+    if mism > len(chosen) // 10 and not ctx.violations:
+        # the code no longer behaves like the model although the property holds on everything observed
+        raise MachineryError(f"{mism} of {len(chosen)} replayed behaviours are not reproduced by the code: coverage claim void")
 
     # ================================================================= TLC validates every recorded execution
     def validate(trs: List[Dict[str, Any]], count: bool = True) -> Tuple[set, List[str]]:
@@ -944,8 +955,8 @@ def run(ctx: Ctx) -> int:
         twice = {**full(b2), "reports": base["reports"] + base["reports"][:1]}
         nc["second_report_rejected"] = 3 not in acc and "OneReport" in judge(twice)
         nc["partial_fallback_rejected"] = 4 not in acc and "FallbackComplete" in judge(full(b3))
-    ctx.extra["negative_control"] = nc
-    if not nc or not all(nc.values()):
+    ctx.extra["negative_control"] = nc or "not run: no execution with a fatal parse error satisfied the property"
+    if (not nc and not ctx.violations) or not all(nc.values()):
         raise MachineryError(f"negative control failed: {nc}")
 
     ctx.assumptions += [
